@@ -10,10 +10,10 @@ def run(chk):
     if thorough:
         chk.mc("Loaders", "MC_Loaders_big.cfg", required=["ResolveDegree"], timeout=7200)
     chk.mc("Loaders", "MC_Loaders_pinned_reset.cfg", expect_violation="C07_Accumulates")
-    cs = L.split_cases_from_tlc(chk, big=False)
+    cs = L.split_cases_from_tlc(chk, big=thorough)      # thorough: up to 3 topologies, degrees to 5 (about 1e5 parameter sets)
     chk.exhaustive["the whole parameter family of the MC's split machine (%d cases) replayed into the real loaders" % len(cs)] = True
     rng = _r.Random(chk.seed)
-    for i in range(3000 if thorough else 500):
+    for i in range(20000 if thorough else 500):
         T = rng.choice([1, 2, 3, 4])
         lo = rng.randrange(1, 4)
         hi = lo + rng.randrange(1, 6 if T < 4 else 5)
